@@ -255,6 +255,8 @@ def write_replay(pid, payload):
 
 
 def write_evidence(pid, tier_, level, coverage, assumptions, wall, violations):
+    if os.environ.get("VERIF_REPLAY_RUN"):
+        return
     os.makedirs(EVID, exist_ok=True)
     ev = {"property_id": pid, "tier": tier_, "seed": seed(), "level": level, "coverage": coverage,
           "assumptions": assumptions, "wall_s": round(wall, 1), "violations": violations}
